@@ -979,6 +979,9 @@ package mcp
 //@   ensures @undecodable-arguments-are-a-tool-error calls(decode) >= 1 && callResult(decode, 1, 0) != nil ==> calls(handler) == 0 && result.1 == nil && result.0 != nil && calls(toolError) == 1
 //@   ensures @output-is-validated-against-the-output-schema calls(schema) <= 2 && (calls(schema) == 2 ==> calls(handler) == 1 && calls(encode) == 1 && callResult(encode, 1, 1) == nil && callArg(schema, 2, 0) == callResult(encode, 1, 0) && callArg(schema, 2, 1) == outputResolved && callArg(schema, 2, 2))
 //@   ensures @invalid-output-is-an-error-not-a-result calls(schema) == 2 && callResult(schema, 2, 1) != nil ==> result.0 == nil && result.1 != nil
+// Whatever output value is left after the nil-pointer substitution - a nil map or slice is an output too: it encodes
+// as JSON null and is coerced and checked like any other - is marshalled and validated against the output schema.
+//@   ensures @every-output-value-is-validated result.1 == nil && calls(handler) == 1 && local(outval) != nil ==> calls(schema) == 2
 //@   snapshot afterHandler after call h
 //@   ensures @structured-content-is-the-validated-json calls(schema) == 2 && callResult(schema, 2, 1) == nil ==> result.1 == nil && result.0 != nil && typeIs(result.0.StructuredContent, json.RawMessage) && result.0.StructuredContent.(json.RawMessage) == callResult(schema, 2, 0)
 //@   ensures @text-rendering-when-the-handler-gave-no-content calls(schema) == 2 && callResult(schema, 2, 1) == nil && (callResult(handler, 1, 0) == nil || at(afterHandler, callResult(handler, 1, 0).Content == nil)) ==> len(result.0.Content) == 1 && typeIs(result.0.Content[0], *TextContent)
